@@ -244,7 +244,7 @@ func (c *collector) finish() {
 	for i, k := range c.chks {
 		m := ans[i]
 		if k.skip != nil && k.skip(m) {
-			if k.fn != "SPEC" {
+			if k.fn != "SPEC" && k.line != "" && !strings.HasPrefix(k.line, "w.") {
 				skipped++
 			}
 			eq[i] = true
